@@ -1590,6 +1590,7 @@ void eval_instruction (const char *p) {
 
             arr = s->u.arr;
             n = arr->size;
+            STACK_CHECK (n); /* the elements are spread over the value stack */
             num_varargs += n - 1;
             if (!n)
               {
